@@ -178,7 +178,7 @@ def run_case(ctx, case):
         return stage + "-text-differs"
 
     def raised(stage, e):
-        if case.get("bytesfmt"):
+        if case.get("bytesfmt") and not (midcall and isinstance(e, KeyError)):
             return "bytes-format-unsupported"
         if midcall:
             return stage + "-raises:call-inside-lookup-chain"
